@@ -279,7 +279,7 @@ type c17seq struct {
 	Drop string `json:"drop,omitempty"` // "", "after:k", "header:k", "garbage:k"
 	// Dies: the terminate signal takes effect (sequences that end with the terminate request only)
 	Dies bool `json:"dies,omitempty"`
-	K    int    `json:"k,omitempty"`
+	K    int  `json:"k,omitempty"`
 }
 
 var instSeq int
